@@ -30,13 +30,13 @@ Inductive revent :=
 | EvOther.                                          (* any other event name *)
 
 (* ---- the QueryStore the handler reads ---- *)
-Record qstore (S C Q : Type) := QS {
-  qs_query : S -> Q -> option (list bytes);               (* Query; None = error *)
+Record qstore (St C Q : Type) := QS {
+  qs_query : St -> Q -> option (list bytes);               (* Query; None = error *)
   qs_events : C -> Q -> option (list revent * bool)       (* QueryChange.Events: events, reset; None = error *)
 }.
-Arguments QS {S C Q}.
-Arguments qs_query {S C Q}.
-Arguments qs_events {S C Q}.
+Arguments QS {St C Q}.
+Arguments qs_query {St C Q}.
+Arguments qs_events {St C Q}.
 
 (* ---- store/transformer.go ---- *)
 Inductive qtrans :=
@@ -94,8 +94,8 @@ Arguments h_trans {C Q}.
 Arguments h_ar {C Q}.
 
 Section Handler.
-Context {S C Q : Type}.
-Variable qs : qstore S C Q.
+Context {St C Q : Type}.
+Variable qs : qstore St C Q.
 Variable h : qhandler C Q.
 
 (* SetOption and onRegister: true = they panic (both request handlers set; a
@@ -104,7 +104,7 @@ Definition setup_panics : bool :=
   (is_some (h_qrh h) && is_some (h_rh h)) || (h_wild h && negb (is_some (h_ar h))).
 Definition is_query : bool := is_some (h_qrh h).
 
-Definition get_result (st : S) (q : Q) : option rvalue :=
+Definition get_result (st : St) (q : Q) : option rvalue :=
   match qs_query qs st q with
   | Some ids => Some (transform_result (h_trans h) ids)
   | None => None
@@ -116,7 +116,7 @@ Definition plain_query (rid : bytes) : option Q :=
 
 (* get request: getResource / getQueryResource *)
 Inductive gresp := GErr | GPanic | GValue (t : rtype) (v : rvalue) (norm : bytes).
-Definition get_resource (st : S) (rid cq : bytes) : gresp :=
+Definition get_resource (st : St) (rid cq : bytes) : gresp :=
   match h_qrh h with
   | Some f =>
     match f rid cq with
@@ -233,7 +233,7 @@ Fixpoint response_events (evs : list revent) : option (list revent) :=
     end
   end.
 
-Definition query_request (st_now : S) (c : C) (rid cq : bytes) : qresp :=
+Definition query_request (st_now : St) (c : C) (rid cq : bytes) : qresp :=
   match h_qrh h with
   | None => QRErr
   | Some f =>
@@ -310,7 +310,7 @@ Definition view_apply (w : view) (evs : list revent) : view :=
 (* the client of (rid, cq) processes what the handler published for change c;
    its re-fetch after a system.reset and its query requests are served when
    the store is st_now *)
-Fixpoint client_pubs (st_now : S) (c : C) (rid cq : bytes) (ps : list pub) (w : view) : view :=
+Fixpoint client_pubs (st_now : St) (c : C) (rid cq : bytes) (ps : list pub) (w : view) : view :=
   match ps with
   | [] => w
   | p :: r =>
@@ -330,7 +330,7 @@ Fixpoint client_pubs (st_now : S) (c : C) (rid cq : bytes) (ps : list pub) (w : 
     client_pubs st_now c rid cq r w'
   end.
 
-Definition client_step (st_now : S) (c : C) (rid cq : bytes) (w : view) : view :=
+Definition client_step (st_now : St) (c : C) (rid cq : bytes) (w : view) : view :=
   client_pubs st_now c rid cq (fst (handle_change c)) w.
 
 End Handler.
@@ -346,3 +346,86 @@ Definition bs_store {V} : qstore kdb (change V) (iquery V) :=
 Definition bs_client_step {V} (idxs : list (index V)) (h : qhandler (change V) (iquery V))
            (d_now : kdb) (c : change V) (rid cq : bytes) (w : view) : view :=
   if key_changed idxs c then client_step bs_store h d_now c rid cq w else w.
+
+(* ---- a client over a whole change sequence ---- *)
+Definition memb (x : bytes) (l : list bytes) : bool := existsb (beq x) l.
+
+(* the query a subscription (resource, client query) stands for; for a query
+   resource the normalized query must be non-empty (getQueryResource panics otherwise) *)
+Definition sub_query {C Q} (h : qhandler C Q) (rid cq : bytes) : option Q :=
+  match h_qrh h with
+  | Some f => match f rid cq with
+              | Some (q, norm) => if is_nil norm then None else Some q
+              | None => None
+              end
+  | None => plain_query h rid
+  end.
+
+(* dn is the index after some prefix of the changes still to come *)
+Definition reachable_after {V} (idxs : list (index V)) (d : kdb) (cs : list (change V)) (dn : kdb) : Prop :=
+  exists pre post, cs = pre ++ post /\ dn = index_after idxs d pre.
+
+(* The client processes the conversation of every change in order.  The
+   conversation of a change (re-fetch after system.reset, query requests) is
+   served at ANY index state between that change and the end of the sequence:
+   several further mutations may be indexed before the gateway is answered. *)
+Inductive client_run {V} (idxs : list (index V)) (h : qhandler (change V) (iquery V)) (rid cq : bytes)
+  : kdb -> list (change V) -> view -> view -> Prop :=
+| CRnil : forall d w, client_run idxs h rid cq d [] w w
+| CRcons : forall d c r dn w w',
+    reachable_after idxs (index_after idxs d [c]) r dn ->
+    client_run idxs h rid cq (index_after idxs d [c]) r (bs_client_step idxs h dn c rid cq w) w' ->
+    client_run idxs h rid cq d (c :: r) w w'.
+
+(* side conditions of C13's query_spec at a state *)
+Definition data_ok {V} (q : iquery V) (s : vstore V) (d : kdb) : Prop :=
+  entries_nul_free (entries_of (qidx q) s) = true /\
+  (qrev q = true -> db_bytes_ok d = true) /\
+  ((qlimit q < 0)%Z -> (Z.of_nat (length d) < max_int)%Z).
+
+Definition fresh_get {V} (h : qhandler (change V) (iquery V)) (d : kdb) (rid cq : bytes) : view :=
+  view_of_get (get_resource bs_store h d rid cq).
+
+(* ---- QueryStores that answer with events (not badgerstore): what a correct
+   Events means on id lists ---- *)
+Definition raw_step (e : revent) (l : list bytes) : option (list bytes) :=
+  match e with
+  | EvAdd x i =>
+    if (0 <=? i)%Z && (Z.to_nat i <=? length l)%nat then Some (insert_at (Z.to_nat i) x l) else None
+  | EvRemove x i =>
+    if (0 <=? i)%Z && (Z.to_nat i <? length l)%nat && beq (nth (Z.to_nat i) l []) x
+    then Some (remove_at (Z.to_nat i) l) else None
+  | _ => None
+  end.
+(* the events turn the old id list into the new one; remove events name the removed id *)
+Fixpoint raw_apply (evs : list revent) (l : list bytes) : option (list bytes) :=
+  match evs with
+  | [] => Some l
+  | e :: r => match raw_step e l with Some l' => raw_apply r l' | None => None end
+  end.
+(* every id list on the way is duplicate-free (IDToRIDModelTransformer: "the
+   behavior is undefined for slices containing duplicate id string") *)
+Fixpoint raw_nodup (evs : list revent) (l : list bytes) : Prop :=
+  NoDup l /\
+  match evs with
+  | [] => True
+  | e :: r => match raw_step e l with Some l' => raw_nodup r l' | None => True end
+  end.
+
+(* the resource type fits the transformer's output *)
+Definition type_fits {C Q} (h : qhandler C Q) : Prop :=
+  match h_trans h with TrModel _ => h_type h = TModel | _ => h_type h = TCollection end.
+
+(* same content: collections equal, models equal as finite maps *)
+Definition rv_equiv (a b : rvalue) : Prop :=
+  match a, b with
+  | VColl x, VColl y => x = y
+  | VModel x, VModel y => forall k, alookup k x = alookup k y
+  | _, _ => False
+  end.
+Definition view_equiv (a b : view) : Prop :=
+  match a, b with
+  | Some (t1, v1), Some (t2, v2) => t1 = t2 /\ rv_equiv v1 v2
+  | None, None => True
+  | _, _ => False
+  end.
